@@ -193,6 +193,16 @@ Definition wf_contr (ct : ctable) : bool :=
              && forallb (fun d => Pos.eqb d (fst p) || negb (contractible ct d)
                                   || match members ct d with [] => true | _ => false end) (c_mro (snd p)))
           (classes ct).
+(* family X3 = types mentioning a class with an invariant or contravariant parameter (where meet_lower_refuted lives);
+   covt t = true means t is NOT in X3 *)
+Definition is_cov (v : variance) : bool := match v with Cov => true | _ => false end.
+Fixpoint covt (ct : ctable) (t : ty) : bool :=
+  match t with
+  | TInst c args => forallb is_cov (c_var (cls_of ct c)) && forallb (covt ct) args
+  | TUnion ts => forallb (covt ct) ts
+  | TTuple ts => forallb (covt ct) ts
+  | _ => true
+  end.
 Definition atom2 (ct : ctable) (t : ty) : bool := negb (is_union t) && negb (is_never t) && frag2 ct t.
 
 (* closed argument types of generic bases are in F2 *)
